@@ -491,6 +491,31 @@ M("C11", "M11-5-no-dropped-results", dict(
   title="on the writer / updater / store / directory / reader paths no `Result` is dropped without being matched or propagated, except the documented sinks (GC after commit / merge, closed channels, Drop)",
   functions=[], bounds="unroll 1, per function")
 
+# Error-erasing adapters: `.ok()`, `.err()`, `.unwrap_or*()`, `.is_ok()/.is_err()`, `.map_or*()`,
+# `.iter()/.into_iter()` on a `Result` whose error type is an I/O-carrying error, and iterator
+# adapters (`flatten`, `filter_map`, `flat_map`, `map_while`) over an iterator of such `Result`s
+# (Item resolved from the closure of the outermost `Map` / `FilterMap` or a spelled `Item = ..`), turn an
+# I/O failure into "nothing there". On the indexing / merge / store / directory / reader paths
+# none may appear outside the allow-list below (each entry read and justified: in-memory decoding
+# of already-validated bytes, or the error is re-raised just after).
+IOERR = r"(std::io::Error|std::io::ErrorKind|error::TantivyError|OpenReadError|OpenWriteError|OpenDirectoryError|DeleteError|LockError|Incompatibility)"
+ERASERS = (r"Result::<.*" + IOERR + r".*>::(ok|err|unwrap_or|unwrap_or_default|unwrap_or_else|is_ok|is_err|map_or|map_or_else|iter|into_iter)$"
+           r"|Iterator>::(flatten|filter_map|flat_map|map_while)(::<.*>)? \[Item=std::result::Result<.*" + IOERR)
+ERASER_SINKS = [
+    (r"managed_directory::.*::wrap$", r"OpenReadError>::err$"),                       # `io_err.err().unwrap().into()`: the error is re-raised
+    (r"store::index::skip_index::.*::next$", r"Result::<\(\), std::io::Error>::ok$"),  # in-memory checkpoint block decode ends the layer iterator
+    (r"store::reader::block_read_index$", r"Result::<u32, std::io::Error>::unwrap_or$"),  # in-memory offset table; last doc uses the block end
+    (r"store::store_compressor::harvest_thread_result$", r"::is_err$"),                 # join result: the panic payload is turned into an io::Error below
+]
+M("C11", "M11-6-no-error-erasing-adapters", dict(
+    kind="scan",
+    scope=[r"^indexer::", r"^store::", r"^directory::", r"^reader::", r"^index::", r"^core::", r"^postings::(serializer|postings_writer|per_field_postings_writer|json_postings_writer)",
+           r"^fastfield::writer", r"^fieldnorm::(writer|serializer)", r"^termdict::", r"^positions::serializer"],
+    events={"erased": {"call": ERASERS, "allow": ERASER_SINKS, "with_item": True}},
+    checks=[("never", "erased")], unroll=1),
+  title="on the indexing / merge / store / directory / reader paths no I/O-carrying `Result` goes through an error-erasing adapter (ok / err / unwrap_or* / is_ok / is_err / map_or* / Result::iter, Iterator::flatten / filter_map / flat_map / map_while over Results) outside the documented allow-list",
+  functions=[], bounds="unroll 1, per function")
+
 # ---------------------------------------------------------------------------------------------
 # MmapDirectory's flock-based locks are exclusive on both the blocking (META_LOCK: reader vs GC)
 # and the non-blocking (writer lock) branch; the guard is only built after the lock was obtained.
